@@ -79,11 +79,15 @@ class Field:
 
 
 class Struct:
-    def __init__(self, ident, fields, derive="RW", path=None, total_bits=None, spell="auto", note=""):
+    def __init__(self, ident, fields, derive="RW", path=None, total_bits=None, spell="auto", note="", packed=False, custom_def=None):
         self.ident, self.fields, self.derive = ident, fields, derive
         self.path = path or ident
         self.defined = path is None
         self.note = note
+        self.packed = packed          # #[repr(C, packed)]: fields are read by copy, never by reference
+        self.custom_def = custom_def  # definition text emitted verbatim instead of the generic one
+        for f in fields:
+            f.packed = packed
         pos = 0
         for f in fields:
             if f.skip:
@@ -369,7 +373,13 @@ def attr_of(f):
 
 
 def emit_struct_def(o, s):
+    if s.custom_def:
+        for l in s.custom_def:
+            o.w(l)
+        return
     o.w("#[derive(Debug, Copy, Clone, ethercrab_wire::%s)]" % derive_name(s.derive))
+    if s.packed:
+        o.w("#[repr(C, packed)]")
     if s.spell == "bytes" or (s.spell == "auto" and s.bits % 8 == 0 and (s.bits // 8) % 2 == 0):
         o.w("#[wire(bytes = %d)]" % (s.bits // 8))
     else:
@@ -385,6 +395,8 @@ def emit_struct_def(o, s):
 
 def rd(f, v="v"):
     """expression reading field f of value `v`"""
+    if getattr(f, "packed", False):
+        return "{ %s.%s }" % (v, f.name)
     return "%s.%s" % (v, f.name) if f.vis else "%s.verif_%s()" % (v, f.name)
 
 
@@ -649,8 +661,6 @@ def fam_A(fam, tier):
             for b in (0, 1):
                 for ty in ("u8", "enum", "bool"):
                     quick = ty == "u8" and b == (k % 2)
-                    if not quick and tier != "thorough":
-                        continue
                     fields = []
                     if b == 1:
                         fields.append(Field("p0", "u8", 8))
@@ -693,9 +703,7 @@ def fam_B(fam, tier):
     rot = 0
     for ci, comp in enumerate(compositions(8, 4)):
         for variant in (0, 1):
-            quick = variant == 0 and (len(comp) <= 3 or ci % 3 == 0)
-            if not quick and tier != "thorough":
-                continue
+            quick = variant == 0 and len(comp) <= 3
             fields, pend = [], 0
             for pi, w in enumerate(comp):
                 kind = kinds[(rot + pi * (variant + 1)) % len(kinds)] if variant == 0 else ("u8" if (pi + ci) % 2 else "skip")
@@ -737,8 +745,6 @@ def fam_C(fam, tier):
         for off in range(4):
             for ci, (pre, post) in enumerate(combos):
                 quick = ci == (t + off) % 4 and off % 2 == t % 2
-                if not quick and tier != "thorough":
-                    continue
                 fields = []
                 for j in range(off):
                     fields.append(Field("p%d" % j, "u8", 8))
@@ -775,8 +781,9 @@ def fam_D(fam, tier):
     S("D_nest", [Field("a", "u8", 4), Field("n", "Nib", 4), Field("m", "D_mid", 8), Field("w", "Word16", 16, spell={"w": "bytes"}),
                  Field("z", "u16", 16)])
     S("D_nest2", [Field("h", "D_nest", 48, spell={"w": "bytes"}), Field("e", "D_enums", 48, pre=16, post=8), Field("k", "u8", 8)])
-    S("D_arr", [Field("a", "[u8; 4]", 32, spell={"w": "bytes"}), Field("b", "u8", 8), Field("c", "[u8; 1]", 8), Field("d", "[u8; 6]", 48, pre=8)])
-    S("D_arr_ro", [Field("a", "[u16; 3]", 48), Field("b", "[u8; 2]", 16), Field("c", "[i32; 2]", 64, post=8), Field("d", "u8", 8)], derive="R")
+    # arrays decode through chunks_exact().take().map().collect::<heapless::Vec>(): expensive for CBMC, kept small
+    S("D_arr", [Field("a", "[u8; 3]", 24, spell={"w": "bytes"}), Field("b", "u8", 8), Field("c", "[u8; 1]", 8), Field("d", "[u8; 2]", 16, pre=8)])
+    S("D_arr_ro", [Field("a", "[u16; 2]", 32), Field("b", "[i32; 1]", 32, post=8), Field("d", "u8", 8)], derive="R")
     S("D_float", [Field("a", "f32", 32), Field("b", "f64", 64, spell={"w": None}), Field("c", "u8", 8), Field("d", "f64", 64, spell={"w": "bytes"})])
     S("D_skipfield", [Field("a", "u16", 16), Field("ign", "u16", skip=True), Field("b", "u8", 8, post=8)], derive="R")
     S("D_ro", [Field("a", "u8", 3), Field("b", "EPlain8", 2), Field("c", "bool", 1, post=2), Field("d", "EReadOnly8", 8), Field("e", "i16", 16)], derive="R")
@@ -785,6 +792,38 @@ def fam_D(fam, tier):
                   Field("d", "u64", 64, spell={"w": None}), Field("e", "i8", 8, spell={"w": None})])
     S("D_infer2", [Field("a", "i16", 16, spell={"w": None}), Field("b", "i32", 32, spell={"w": None}), Field("c", "i64", 64, spell={"w": None}),
                    Field("d", "f64", 64, spell={"w": None})])
+    # #[repr(packed)] takes the read_unaligned path of generate_struct_write
+    S("D_packed", [Field("a", "u8", 8), Field("b", "u32", 32), Field("c", "u8", 3), Field("d", "bool", 1), Field("e", "ECatch8", 4),
+                   Field("f", "u16", 16, pre=8), Field("g", "Word16", 16), Field("h", "i64", 64)], packed=True)
+    S("D_packed_ro", [Field("a", "u16", 16), Field("b", "u8", 5, post=3), Field("c", "EPlain8", 8), Field("d", "u32", 32)], packed=True, derive="R")
+    # generic structs (impl_generics / where clause pass-through)
+    S("DGenU32", [Field("a", "i32", 32), Field("b", "u32", 32)], custom_def=[
+        "#[derive(Debug, Copy, Clone, ethercrab_wire::EtherCrabWireReadWrite)]",
+        "#[wire(bytes = 8)]",
+        "pub struct DGen<T: ethercrab_wire::EtherCrabWireReadWrite> {",
+        "    #[wire(bits = 32)]",
+        "    pub a: i32,",
+        "    #[wire(bits = 32)]",
+        "    pub b: T,",
+        "}",
+        "pub type DGenU32 = DGen<u32>;"])
+    S("DGenWhereE16", [Field("a", "u8", 3), Field("b", "u8", 5), Field("c", "ECatch16", 16), Field("d", "u8", 8)], custom_def=[
+        "#[derive(Debug, Copy, Clone, ethercrab_wire::EtherCrabWireReadWrite)]",
+        "#[wire(bits = 32)]",
+        "pub struct DGenWhere<T>",
+        "where",
+        "    T: ethercrab_wire::EtherCrabWireReadWrite,",
+        "{",
+        "    #[wire(bits = 3)]",
+        "    pub a: u8,",
+        "    #[wire(bits = 5)]",
+        "    pub b: u8,",
+        "    #[wire(bytes = 2)]",
+        "    pub c: T,",
+        "    #[wire(bits = 8)]",
+        "    pub d: u8,",
+        "}",
+        "pub type DGenWhereE16 = DGenWhere<ECatch16>;"])
     S("D_twelve", [Field("f%d" % k, "u8", w) for k, w in enumerate([1, 2, 3, 2, 4, 4, 8, 1, 1, 1, 5])] + [Field("f11", "u16", 16)])
     S("D_sixteen", [Field("a", "u64", 64), Field("b", "u32", 32), Field("c", "u16", 16), Field("d", "u8", 8), Field("e", "u8", 7, post=1)])
     return out
@@ -804,7 +843,15 @@ def fam_F(fam):
               "A = 1 with alternatives [7, 9] followed by implicit B: Rust gives B = 2, parse_enum continues after the last alternative (B = 10); "
               "pack(B) = [2], unpack([2]) = Err(InvalidValue), unpack([10]) = B"))
     # F-c: f32 with inferred width is treated as 8 bytes wide
-    fam.add(Struct("FInferF32", [Field("a", "f32", 32, spell={"w": None}), Field("b", "u8", 8)], total_bits=None, note="f32-inferred"))
+    fam.add(Struct("FInferF32", [Field("a", "f32", 32, spell={"w": None}), Field("b", "u8", 8)], custom_def=[
+        "// declared the way the macro demands (9 bytes); the Rust types say 4 + 1",
+        "#[derive(Debug, Copy, Clone, ethercrab_wire::EtherCrabWireReadWrite)]",
+        "#[wire(bytes = 9)]",
+        "pub struct FInferF32 {",
+        "    pub a: f32,",
+        "    #[wire(bits = 8)]",
+        "    pub b: u8,",
+        "}"]))
     F.append(("c19_gen_find_f32_inferred_width", ["FInferF32"],
               "parse_struct infers 8 bytes for an f32 field without width attribute (\"u64\" | \"i64\" | \"f32\" | \"f64\" => Some(8)): "
               "struct { a: f32, b: u8 } must be declared #[wire(bytes = 9)] to compile and b lands in byte 8, PACKED_LEN 9 instead of 5"))
@@ -893,8 +940,8 @@ def rand_struct(rng, fam, ident, pool_nested):
             ty = rng.choice(cand)
             f = Field("f%d" % len(fields), ty, fam.types[ty].bits, pre=pend)
         elif c == "arr":
-            n = rng.randint(1, 5)
-            if 8 * n > room_bits:
+            n = rng.randint(1, 3)
+            if 8 * n > room_bits or any(x.kind == "u8arr" or x.ty.startswith("[") for x in fields):
                 continue
             f = Field("f%d" % len(fields), "[u8; %d]" % n, 8 * n, pre=pend)
         # multi-byte fields need the pre-skip to keep byte alignment
@@ -1139,34 +1186,43 @@ def main():
         for k, ch in enumerate(chunks(idents, per)):
             groups.append(("%s_%d" % (prefix, k), tier_, ch, what))
 
-    group("c19_gen_enum", "quick", enums, 7, "generated enums (standalone)")
+    group("c19_gen_enum", "quick", enums, 10, "generated enums (standalone)")
     group("c19_gen_block", "quick", blocks, 3, "nesting building blocks")
     aq, at = fam_A(fam, tier)
-    group("c19_gen_a", "quick", aq, 9, "family A: one bit field (offset, width) between fillers")
-    group("c19_gen_a_t", "thorough", at, 12, "family A (all field kinds, both byte positions)")
+    group("c19_gen_a", "quick", aq, 12, "family A: one bit field (offset, width) between fillers")
+    group("c19_gen_a_t", "thorough", at, 15, "family A (all field kinds, both byte positions)")
     bq, bt = fam_B(fam, tier)
     group("c19_gen_b", "quick", bq, 10, "family B: tilings of a byte")
-    group("c19_gen_b_t", "thorough", bt, 12, "family B (remaining tilings and skip variants)")
+    group("c19_gen_b_t", "thorough", bt, 15, "family B (remaining tilings and skip variants)")
     cq, ct = fam_C(fam, tier)
     group("c19_gen_c", "quick", cq, 8, "family C: multi-byte primitives at byte offsets with skips")
-    group("c19_gen_c_t", "thorough", ct, 10, "family C (all offset/skip combinations)")
+    group("c19_gen_c_t", "thorough", ct, 14, "family C (all offset/skip combinations)")
     d = fam_D(fam, tier)
-    group("c19_gen_d", "quick", d, 6, "family D: special shapes")
-    nest_pool = blocks + ["D_mid", "D_nest", "D_arr", "D_enums"]
-    r = fam_R(fam, "R", 0xC19, 40, nest_pool)
+    heavy = ["D_nest2", "D_arr"]     # expensive members (deep nesting, three array decodes)
+    group("c19_gen_d", "quick", [x for x in d if x not in heavy], 8, "family D: special shapes")
+    group("c19_gen_d_t", "thorough", heavy, 1, "family D: special shapes (expensive members)")
+    nest_pool = blocks + ["D_mid", "D_nest", "D_enums"]
+    r = fam_R(fam, "R", 0xC19, 24, nest_pool)
     group("c19_gen_r", "quick", r, 8, "family R: random structs, fixed seed 0xC19")
-    if tier == "thorough":
-        rt = fam_R(fam, "RT", 0xC19 + 1, 360, nest_pool)
-        group("c19_gen_r_t", "thorough", rt, 12, "family R: random structs, fixed seed 0xC1A")
-    sx = fam_R(fam, "SX", seed, 10 if tier == "quick" else 100, nest_pool)
-    group("c19_gen_seeded", "quick", sx, 10, "family S: random structs from VERIF_SEED=%d" % seed)
+    rt = fam_R(fam, "RT", 0xC19 + 1, 376, nest_pool)
+    group("c19_gen_r_t", "thorough", rt, 12, "family R: random structs, fixed seed 0xC1A")
+    sx = fam_R(fam, "SX", seed, 100, nest_pool)
+    group("c19_gen_seeded", "quick", sx[:6], 6, "family S: random structs from VERIF_SEED=%d" % seed)
+    group("c19_gen_seeded_t", "thorough", sx[6:], 12, "family S: random structs from VERIF_SEED=%d" % seed)
     findings = fam_F(fam)
     gen_idents = list(fam.types.keys())
     inc, skipped = build_incrate(fam)
     inc_enums = [n for n in inc if isinstance(fam.types[n], Enum)]
     inc_structs = [n for n in inc if isinstance(fam.types[n], Struct)]
-    group("c19_crate_enum", "quick", inc_enums, 8, "derived enums of /repo/src")
-    group("c19_crate_struct", "quick", inc_structs, 5, "derived structs of /repo/src")
+    group("c19_crate_enum", "quick", inc_enums, 12, "derived enums of /repo/src")
+    group("c19_crate_struct", "quick", inc_structs, 6, "derived structs of /repo/src")
+
+    # In a quick run the members that only thorough harnesses use are not emitted (build time); the
+    # thorough harnesses then appear as metadata-only stubs so that the registry knows their names.
+    thorough_only = set()
+    if tier != "thorough":
+        used_quick = {i for (_n, t_, ids, _w) in groups if t_ == "quick" for i in ids}
+        thorough_only = {i for (_n, t_, ids, _w) in groups if t_ == "thorough" for i in ids} - used_quick - set(nest_pool)
 
     o = Out()
     o.w("// GENERATED by /verif/tools/gen_layouts.py (tier=%s seed=%d) -- do not edit." % (tier, seed))
@@ -1178,6 +1234,8 @@ def main():
     o.w("};")
     o.w()
     for ident, t in fam.types.items():
+        if ident in thorough_only:
+            continue
         o.w("// ---- %s%s" % (ident, "" if t.defined else "  (= %s)" % t.path))
         if isinstance(t, Enum):
             if t.defined:
@@ -1186,17 +1244,7 @@ def main():
             emit_enum_check(o, t)
         else:
             if t.defined:
-                if t.note == "f32-inferred":
-                    # what compiles: the macro's own (wrong) total
-                    o.w("#[derive(Debug, Copy, Clone, ethercrab_wire::EtherCrabWireReadWrite)]")
-                    o.w("#[wire(bytes = 9)]")
-                    o.w("pub struct FInferF32 {")
-                    o.w("    pub a: f32,")
-                    o.w("    #[wire(bits = 8)]")
-                    o.w("    pub b: u8,")
-                    o.w("}")
-                else:
-                    emit_struct_def(o, t)
+                emit_struct_def(o, t)
             emit_struct_ref(o, t, fam.types)
             emit_struct_check(o, t, fam.types)
         o.w()
@@ -1241,6 +1289,10 @@ def main():
         o.w("//@ outside: type definitions not in the generated family (the quantifier over programs is a finite systematic family plus seeded extras, not a solver variable)")
         if expect_fail:
             o.w("//@ expect_fail: %s" % expect_fail)
+        if any(i in thorough_only for i in idents):
+            o.w("// (metadata only: members and body are generated when pregen runs with tier=thorough)")
+            o.w()
+            return
         o.w("#[kani::proof]")
         o.w("#[kani::unwind(66)]")
         o.w("pub fn %s() {" % name)
@@ -1266,9 +1318,10 @@ def main():
     tmp = path + ".tmp%d" % os.getpid()
     open(tmp, "w").write(o.text())
     os.replace(tmp, path)
-    ngen = len([i for i in gen_idents])
-    print("c19_gen.rs: %d generated definitions, %d in-crate types, %d harnesses, skipped in-crate: %s" % (
-        ngen, len(inc), len([g for g in groups if g[2]]) + len(findings), ", ".join(n for n, _ in skipped) or "-"))
+    ngen = len([i for i in gen_idents if i not in thorough_only])
+    nh = len([g for g in groups if g[2] and not any(i in thorough_only for i in g[2])]) + len(findings)
+    print("c19_gen.rs (tier=%s seed=%d): %d generated definitions emitted (%d in the full family), %d in-crate types, %d harnesses with body, skipped in-crate: %s" % (
+        tier, seed, ngen, len(gen_idents), len(inc), nh, ", ".join(n for n, _ in skipped) or "-"))
 
 
 if __name__ == "__main__":
